@@ -6,7 +6,7 @@
     public keys with [marshal_pk]/[parse_pk]/[verify], [sha256] (peer IDs), and the
     RFC3339Nano codec [fmt_time]/[parse_time] (Go's time package behind
     util.FormatRFC3339/ParseRFC3339).  No proofs in this file. *)
-From Coq Require Import ZArith List Bool.
+From Coq Require Import ZArith List Bool String.
 From V Require Import lib.Verdict lib.Lex lib.Varint lib.Pb lib.CborScalar lib.Ipns.
 Import ListNotations.
 Open Scope Z_scope.
@@ -87,7 +87,7 @@ Definition create_node (value : bytes) (seq : Z) (validity : bytes) (ttl : Z)
                                 (kTTL, CInt ttl)]))
   end.
 
-Definition eol_name : bytes := Eval vm_compute in str "EOL".   (* fmt.Append(nil, IpnsRecord_EOL) *)
+Definition eol_name : bytes := Eval vm_compute in str "EOL"%string.   (* fmt.Append(nil, IpnsRecord_EOL) *)
 
 Record inputs := mkInputs {
   i_value : bytes;
@@ -255,7 +255,7 @@ Definition check_case (c : case) : verdict :=
       let now := if future then i_eol i else i_eol i + 1 in
       let nm := o_name o in
       match new_record unit bytes (fun _ => o_pkbytes o) (c_sign o) marshal_pk (fun _ => o_validity o) tt i with
-      | NErr _ => VModelMismatch
+      | NErr _ => verdict_of false (forallb meta_entry_ok (i_meta i))   (* boxo created a record from bad metadata *)
       | NOk rec =>
           let raw := marshal (r_pb rec) in
           match unmarshal_record raw with
